@@ -244,9 +244,10 @@ Lemma entry_ok_ext stab ext j nd me se :
   (forall x, In (BUp x) (n_fields nd) -> x < List.length stab) ->
   entry_ok wf stab j nd me se -> entry_ok wf (stab ++ ext) j nd me se.
 Proof.
-  intros HL [H1 H2 H3 H4 H5 H6 H7 H8]. constructor; try assumption.
-  intros HA. destruct (H8 HA) as [s [E [S1 S2 S3 S4 S5 S6 S7 S8 S9 S10 S11]]]. exists s. split; [exact E|].
-  constructor; try assumption; rewrite ups_ext by exact HL; assumption.
+  intros HL [H1 H2 H2' H3 H4 H5 H6 H7 H8]. constructor; try assumption.
+  - rewrite up_axes_ext by exact HL. exact H2'.
+  - intros HA. destruct (H8 HA) as [s [E [S1 S2 S3 S4 S5 S6 S7 S8 S9 S10 S11 S12]]]. exists s. split; [exact E|].
+    constructor; try assumption; rewrite ups_ext by exact HL; assumption.
 Qed.
 
 (* ---------- _add_state_history / both passes leave separate origins alone ---------- *)
